@@ -137,7 +137,31 @@ func init() { registerKind("variant", func() Case { return &VariantCase{} }) }
 
 // ---- C15: renaming -----------------------------------------------------------------
 
+// names the tree's own source spells out in string literals (set by the C15 run; see sourceNames)
+var c15SrcFormats, c15SrcPlain []string
+
 func adversarialNames(r *Rand, n int, reserved []string) []string {
+	if len(c15SrcFormats)+len(c15SrcPlain) > 0 && r.Chance(1, 4) {
+		// the names produced by the tree's own format strings first, then a sample of its other identifier-like literals
+		out := append([]string{}, c15SrcFormats...)
+		Shuffle(r, out)
+		pl := append([]string{}, c15SrcPlain...)
+		Shuffle(r, pl)
+		taken := map[string]bool{}
+		for _, f := range out {
+			taken[f] = true
+		}
+		for _, f := range pl {
+			if !taken[f] {
+				taken[f] = true
+				out = append(out, f)
+			}
+		}
+		for len(out) < n {
+			out = append(out, genIdent(r, Pick(r, []int{2, 3, 8, 9}), reserved, taken))
+		}
+		return out[:n]
+	}
 	fams := [][]string{
 		{"a", "aa", "a_", "A", "aA", "Aa", "a0", "a_a", "_a", "__a", "a__"},
 		{"x", "xy", "xyz", "xyzw", "x_", "X", "Xy", "xY"},
@@ -213,6 +237,15 @@ func genC15(r *Rand, reserved []string, nvar int, coff bool) *VariantCase {
 			labsAll = append(labsAll, s.Label)
 		}
 	}
+	if len(p.Stmts) > 2 && r.Chance(1, 2) {
+		// a branch to a numeric address somewhere in the program (an assembler may invent a helper name for it)
+		k := r.Range(1, len(p.Stmts)-1)
+		for k < len(p.Stmts)-1 && (p.Stmts[k].K == "org" || p.Stmts[k].K == "bits" || p.Stmts[k].K == "resbto" || p.Stmts[k-1].K == "resbto") {
+			k++
+		}
+		rest := append([]PStmt{}, p.Stmts[k:]...)
+		p.Stmts = append(append(p.Stmts[:k:k], PStmt{K: "raw", Text: fmt.Sprintf("\t%s 0x%x", Pick(r, []string{"JMP", "CALL", "JNZ"}), Pick(r, []int{0xc200, 0x7c00, 0x8000, 0x100}))}), rest...)
+	}
 	if len(labsAll) > 0 && len(p.Stmts) > 1 {
 		rn := map[int][]string{16: {"CX", "DX", "BX", "SI"}, 32: {"ECX", "EDX", "EBX", "ESI"}}[mode]
 		forms := []string{"\tMOV %s,[%s]", "\tMOV [%s],%s", "\tCMP WORD [%s],0", "\tMOV CL,[%s]", "\tMOV [%s],DL"}
@@ -278,6 +311,9 @@ func init() {
 		env.InitBaseline()
 		r := NewRand(env.Seed, "C15")
 		reserved := reservedPrefixes(env.Repo)
+		c15SrcFormats, c15SrcPlain = sourceNames(env.Repo, reserved)
+		rep.Extra["names_from_source_formats"] = len(c15SrcFormats)
+		rep.Extra["names_from_source_literals"] = len(c15SrcPlain)
 		n, nv := 700, 4
 		if env.Tier == "thorough" {
 			n, nv = 10000, 8
@@ -287,7 +323,7 @@ func init() {
 			cases = append(cases, genC15(r, reserved, nv, i%4 == 3))
 		}
 		rep.Rule = "seeded programs with labels and EQUs (flat 16/32-bit with and without ORG; every fourth as WCOFF with all labels GLOBAL) x injective renamings of all labels and EQU names into [A-Za-z_][A-Za-z0-9_]{0,39}: " +
-			"adversarial families (a aa a_ A aA ..; common prefixes/suffixes; case-only differences; 8/9-character names; lower-case spellings of registers/mnemonics/keywords and names of registers of other architectures levels) and random identifiers; names with a reserved word / mnemonic / register name as a prefix are excluded (list read from the tree's two .peg files); " +
+			"adversarial families (identifier-like string literals of the tree's own Go source and the names its format strings produce; a aa a_ A aA ..; common prefixes/suffixes; case-only differences; 8/9-character names; lower-case spellings of registers/mnemonics/keywords and names of registers of other architectures levels) and random identifiers; names with a reserved word / mnemonic / register name as a prefix are excluded (list read from the tree's two .peg files); " +
 			"oracle: flat outputs byte-identical; COFF objects identical except Name fields and string table; programs reference every look-alike name at a different address, so a collision changes bytes; distinct = (mode, origin, format, identifier-count bucket) cells"
 		rep.Extra["reserved_prefix_words"] = len(reserved)
 		outs := RunCases(env, cases)
